@@ -1,6 +1,6 @@
 (* C10 - property theorems only. *)
 From Coq Require Import String List Arith.
-Require Import PV.Num PV.Sort PV.Spec PV.Impl PV.Batch.
+Require Import PV.Num PV.Sort PV.Spec PV.Impl PV.Batch PV.RefineParams PV.RefineLayout.
 Import ListNotations.
 
 (* flat index arithmetic of the (N, npars) tensor: entry r * npars + i of the flattened tensor is entry i of row r *)
@@ -8,13 +8,53 @@ Theorem C10_flat_index : forall (A : Type) (d : A) n (rows : list (list A)) r i,
   (forall row, In row rows -> length row = n) -> r < length rows -> i < n ->
   nth (r * n + i) (concat rows) d = nth i (nth r rows []) d.
 Proof. exact @nth_concat_rows. Qed.
-(* for every batch size and all rows: the batched expected data is the row-wise map of the unbatched one,
-   provided every parameter index the model reads lies inside the row (a decidable condition on the built model
-   that the check evaluates for every generated model; proving it from build = Ok is future work: _partial) *)
-Theorem C10_batched_expected_data_partial : forall N interp_add interp_mul (sp : spec N) (st : settings N) (md : model N) rows,
-  reads_in_range N sp (cfg_channels N sp) (cfg_samples N sp) (cfg_modifiers N sp) md = true ->
+(* for every accepted specification, every batch size and all rows of the right length: the batched expected data is the
+   row-wise map of the unbatched one (no per-model premise: every parameter index read through a declared cell lies inside
+   the row by RefineParams.v / RefineLayout.v, and masked-out reads never reach the result) *)
+Theorem C10_batched_expected_data : forall N interp_add interp_mul (sp : spec N) (st : settings N) (md : model N),
+  build N sp = Ok md -> forall rows,
   (forall row, In row rows -> length row = md_npars N md) ->
   expected_actualdata_batched N interp_add interp_mul sp st md rows = map (expected_actualdata N interp_add interp_mul sp st md) rows.
-Proof. exact batched_expected_data. Qed.
+Proof. exact batched_expected_data_full. Qed.
+(* the same for the likelihood term lists (main Poisson terms, then the constraint terms): row r of the batched model is the
+   unbatched model on row r of the parameters and row r of the data, including its refusals (wrong data length) *)
+Theorem C10_batched_logpdf_terms : forall N interp_add interp_mul (sp : spec N) (st : settings N) (md : model N),
+  build N sp = Ok md -> forall rows,
+  (forall row, In row rows -> length row = md_npars N md) -> forall datas,
+  logpdf_terms_batched N interp_add interp_mul sp st md rows datas =
+  map (fun r => logpdf_terms N interp_add interp_mul sp st md (nth r rows []) (nth r datas [])) (seq 0 (length rows)).
+Proof. exact batched_logpdf_terms_full. Qed.
+Theorem C10_batched_logpdf_terms_rows : forall N interp_add interp_mul (sp : spec N) (st : settings N) (md : model N),
+  build N sp = Ok md -> forall rows,
+  (forall row, In row rows -> length row = md_npars N md) -> forall datas, length datas = length rows ->
+  logpdf_terms_batched N interp_add interp_mul sp st md rows datas =
+  map (fun rd => logpdf_terms N interp_add interp_mul sp st md (fst rd) (snd rd)) (combine rows datas).
+Proof. exact batched_logpdf_terms_rows. Qed.
+(* the decidable all-reads premise that the check still evaluates for every generated model (now a cross-check): it holds for
+   every accepted specification with a non-empty parameter vector, in particular under the schema rule "sample data is not
+   empty"; without that it is false of the model (witness: an empty sample, which pyhf's schema refuses) *)
+Theorem C10_reads_in_range_accepted : forall N (sp : spec N) md, build N sp = Ok md -> 0 < md_npars N md ->
+  reads_in_range N sp (cfg_channels N sp) (cfg_samples N sp) (cfg_modifiers N sp) md = true.
+Proof. exact accepted_reads_in_range. Qed.
+Theorem C10_reads_in_range_schema : forall N (sp : spec N) md, build N sp = Ok md -> data_nonempty N sp ->
+  reads_in_range N sp (cfg_channels N sp) (cfg_samples N sp) (cfg_modifiers N sp) md = true.
+Proof. exact accepted_reads_in_range_schema. Qed.
+Theorem C10_reads_in_range_refuted :
+  exists md, build QcNum empty_sample_spec = Ok md /\ md_npars QcNum md = 0 /\
+    reads_in_range QcNum empty_sample_spec (cfg_channels QcNum empty_sample_spec) (cfg_samples QcNum empty_sample_spec)
+                   (cfg_modifiers QcNum empty_sample_spec) md = false.
+Proof. exact reads_in_range_refuted. Qed.
+(* non-vacuity of the batched theorem on the 3-channel example of RefineLayout.v (13 parameters) *)
+Theorem C10_layout_example_batched : forall ia im md rows, build QcNum layout_example_spec = Ok md ->
+  (forall row, In row rows -> length row = 13) ->
+  expected_actualdata_batched QcNum ia im layout_example_spec layout_example_st md rows =
+  map (expected_actualdata QcNum ia im layout_example_spec layout_example_st md) rows.
+Proof. exact layout_example_batched. Qed.
 Print Assumptions C10_flat_index.
-Print Assumptions C10_batched_expected_data_partial.
+Print Assumptions C10_batched_expected_data.
+Print Assumptions C10_batched_logpdf_terms.
+Print Assumptions C10_batched_logpdf_terms_rows.
+Print Assumptions C10_reads_in_range_accepted.
+Print Assumptions C10_reads_in_range_schema.
+Print Assumptions C10_reads_in_range_refuted.
+Print Assumptions C10_layout_example_batched.
